@@ -232,7 +232,8 @@ Section Path.
     - destruct (dstep (xpub X) (S.xk_testnet X) (Enc X) i) as [x1|e] eqn:E1; cbn [bind] in H; [|discriminate].
       destruct (derive_step_ok_inv X i x1 W E1) as (X1 & C & -> & W1 & Hi). rewrite C.
       destruct (child_shape X i X1 C) as (T & P & _). rewrite <- T, <- P in H.
-      destruct (IH X1 y W1 H) as (X' & DR & -> & W' & Hl). exists X'. repeat split; auto.
+      destruct (IH X1 y W1 H) as (X' & DR & -> & W' & Hl). exists X'.
+      split; [exact DR|]. split; [reflexivity|]. split; [exact W'|]. constructor; assumption.
   Qed.
 
   (* ---------- the path text ---------- *)
@@ -324,6 +325,23 @@ Section Path.
     rewrite kind_ok_enc. destruct (xpub X); reflexivity.
   Qed.
 
+End Path.
+
+Section Xpub.
+  Variables p a b n : Z.
+  Variable G : point.
+  Hypothesis CF : curve_facts p a b n G.
+  Hypothesis SQ : sqrt_facts p.
+  Hypothesis Hwp : p <= 2 ^ 256.
+  Hypothesis Hwn : n <= 2 ^ 256.
+  Variable sha256 : bytes -> bytes.
+  Hypothesis sha256_len : forall m, length (sha256 m) = 32%nat.
+  Let Ha := cf_a _ _ _ _ _ CF.
+  Let Hb := cf_b _ _ _ _ _ CF.
+  Notation kG := (fun k => smul p a k G).
+  Notation wf := (S.wf p a b n).
+  Notation Enc := (enc sha256).
+
   (* get_xpub is the BIP's neutered key at the same position *)
   Theorem get_xpub_spec X : wf X ->
     get_xpub p a b n G sha256 (Enc X) = Ok (Enc (S.neuter_xkey kG X)) /\ wf (S.neuter_xkey kG X).
@@ -348,4 +366,4 @@ Section Path.
     - cbn [bind].
       exact (ser_enc p a b n SQ Ha Hb Hwp Hwn sha256 sha256_len X' W' _ _ (or_introl eq_refl) (or_introl eq_refl)).
   Qed.
-End Path.
+End Xpub.
